@@ -242,6 +242,14 @@ impl<'ast> Visit<'ast> for V {
         if is_cfg_test(&i.attrs) {
             return;
         }
+        if i.unsafety.is_some() {
+            let _ = write!(
+                self.out,
+                "{{\"rec\":\"unsafe\",\"file\":{},\"line\":{},\"fn\":\"\",\"kind\":\"impl\"}}\n",
+                esc(&self.file),
+                i.span().start().line
+            );
+        }
         let selfty = toks(&*i.self_ty).replace(' ', "");
         let name = match &i.trait_ {
             Some((_, p, _)) => format!("<{} as {}>", selfty, toks(p).replace(' ', "")),
@@ -261,6 +269,15 @@ impl<'ast> Visit<'ast> for V {
     fn visit_item_fn(&mut self, i: &'ast syn::ItemFn) {
         if is_cfg_test(&i.attrs) || i.attrs.iter().any(|a| a.path().is_ident("test")) {
             return;
+        }
+        if i.sig.unsafety.is_some() {
+            let _ = write!(
+                self.out,
+                "{{\"rec\":\"unsafe\",\"file\":{},\"line\":{},\"fn\":{},\"kind\":\"fn\"}}\n",
+                esc(&self.file),
+                i.span().start().line,
+                esc(&i.sig.ident.to_string())
+            );
         }
         self.items.push(i.sig.ident.to_string());
         let path = self.items.join("::");
@@ -284,6 +301,15 @@ impl<'ast> Visit<'ast> for V {
     fn visit_impl_item_fn(&mut self, i: &'ast syn::ImplItemFn) {
         if is_cfg_test(&i.attrs) {
             return;
+        }
+        if i.sig.unsafety.is_some() {
+            let _ = write!(
+                self.out,
+                "{{\"rec\":\"unsafe\",\"file\":{},\"line\":{},\"fn\":{},\"kind\":\"fn\"}}\n",
+                esc(&self.file),
+                i.span().start().line,
+                esc(&i.sig.ident.to_string())
+            );
         }
         self.items.push(i.sig.ident.to_string());
         let path = self.items.join("::");
@@ -327,6 +353,30 @@ impl<'ast> Visit<'ast> for V {
             );
         }
         visit::visit_local(self, l);
+    }
+
+    fn visit_expr_unsafe(&mut self, e: &'ast syn::ExprUnsafe) {
+        let _ = write!(
+            self.out,
+            "{{\"rec\":\"unsafe\",\"file\":{},\"line\":{},\"fn\":{},\"kind\":\"block\"}}\n",
+            esc(&self.file),
+            e.span().start().line,
+            esc(&self.cur_fn())
+        );
+        visit::visit_expr_unsafe(self, e);
+    }
+
+    fn visit_item_static(&mut self, i: &'ast syn::ItemStatic) {
+        let _ = write!(
+            self.out,
+            "{{\"rec\":\"static\",\"file\":{},\"line\":{},\"name\":{},\"mut\":{},\"ty\":{}}}\n",
+            esc(&self.file),
+            i.span().start().line,
+            esc(&i.ident.to_string()),
+            matches!(i.mutability, syn::StaticMutability::Mut(_)),
+            esc(&toks(&*i.ty))
+        );
+        visit::visit_item_static(self, i);
     }
 
     fn visit_expr_if(&mut self, e: &'ast syn::ExprIf) {
